@@ -102,6 +102,21 @@ theorem code_fllTerm (fll : String) :
     (Gen.Code.FllImporter_term.run fll {} >>= fun r => Py.deref r.ret) = Py.Fll.termOf fll :=
   code_term fll
 
+/-- `FllImporter.activation` on a stripped value (what `extract_key_value` returns; on a text with surrounding white
+    space the code raises where the lexer strips) = the text-level model `activOf` that `rule_block` calls: `none`,
+    class name, factory construction, `configure` = the model's `importActiv` on the tokens of the value -/
+theorem code_fllActivation (v : String) :
+    (Gen.Code.FllImporter_activation.run (Py.Fll.strip v) {} >>= fun r => Py.deref r.ret) =
+      Py.Fll.activOf (Py.Fll.strip v) :=
+  code_activation v
+
+/-- `FllImporter.defuzzifier` on a stripped value = the text-level model `defuzzOf` that `output_variable` calls
+    (the model's `importDefuzz` on the tokens of the value) -/
+theorem code_fllDefuzzifier (v : String) :
+    (Gen.Code.FllImporter_defuzzifier.run (Py.Fll.strip v) {} >>= fun r => Py.deref r.ret) =
+      Py.Fll.defuzzOf (Py.Fll.strip v) :=
+  code_defuzzifier v
+
 /-- `FllImporter.input_variable`: the key dispatch loop is `importVarLine` on the lexed lines, then the name as an
     identifier - same exception class, same variable, for every text -/
 theorem code_fllInputVariable (fll : String) :
